@@ -451,7 +451,7 @@ func volume(a *hx.Args, res *hx.Result) {
 	}
 	n1024 := 0
 	if thorough {
-		n1024 = 3
+		n1024 = 10
 		for i := 0; i < n1024 && 10+i < n; i++ {
 			jobs[10+i].ln = 1024
 		}
